@@ -292,6 +292,11 @@ def wfLex : Lex → Bool
 def commentStart (line : Str) : Option Nat :=
   (List.range line.length).find? fun k => line[k]? == some '%' && (line.take k).count '"' % 2 == 0
 
+/-- position `k` of the line holds a `%` that is outside every string literal -/
+def CommentAt (l : Str) (k : Nat) : Prop := l[k]? = some '%' ∧ (l.take k).count '"' % 2 = 0
+
+instance (l : Str) (k : Nat) : Decidable (CommentAt l k) := by unfold CommentAt; infer_instance
+
 /-- the line without its comment -/
 def uncommented (line : Str) : Str :=
   match commentStart line with
